@@ -663,6 +663,26 @@ func ruleAcceptDial(c *Checker) {
 			})
 			return eq && hasFact(b, func(f Fact) bool { return isConnNonNil(f, true) })
 		}
+		// ... and 'changed' compares the remembered SID with the fresh one, whole
+		for _, ci := range findCalls(fn, func(ci ssa.CallInstruction) bool { return staticCalleeIs(ci.Common(), "bytes", "", "Equal") }) {
+			nField, nWhole := 0, 0
+			for _, a := range ci.Common().Args {
+				sl, ok := a.(*ssa.Slice)
+				if !ok {
+					continue
+				}
+				if sl.Low == nil && sl.High == nil && sl.Max == nil {
+					if at, ok := deref(sl.X.Type()).Underlying().(*types.Array); ok && at.Len() == 64 {
+						nWhole++
+					}
+				}
+				if fa, ok := sl.X.(*ssa.FieldAddr); ok && structFieldOf(fa).Name() == "sid" {
+					nField++
+				}
+			}
+			c.decide(nWhole == 2 && nField == 1, "SIDFRESH", name+"|the remembered and the fresh SID are compared whole", instrPos(ci), "bytes.Equal(s.sid[:], sid[:]) over all 64 bytes",
+				"the 'SID changed' test does not compare the remembered SID with the fresh one over all 64 bytes")
+		}
 		okTear := false
 		for _, ci := range findCalls(fn, func(ci ssa.CallInstruction) bool {
 			sc := ci.Common().StaticCallee()
